@@ -13,6 +13,17 @@ tables): two vectors share iff they stand over the same non-empty storage tuple.
   * whatever happens, no other live vector may show different contents afterwards (leaked write);
   * if another live vector does share the storage and the write is not refused, that is recorded
     under its own key (the statement only demands that nothing leaks; see report).
+On top of the TRUE relation there is a SPEC relation: only vectors built over one caller tuple may share
+(until written / dropped); copies, slices (also whole-vector slices), `<<` with an empty operand, .T,
+operation results and table columns are fresh by the statement.  An AliasError on a vector that is fresh
+by the spec is a failure even when the implementation really made it share storage with its operand
+(key names the operation that produced the unintended sharing).
+Two directed families complete the exhaustive histories: D (every derivation that could accidentally
+hand back the operand's storage, from a fresh vector / from one of two sharers / from a table column,
+followed by every <= 2 (quick) / <= 3 writes, promotions and drops of result and operand) and T (two
+vectors over one tuple, for three ladder kinds, followed by every history of <= 5 / <= 6 promoting and
+plain writes, drops of either sharer / of the tuple, and NEW vectors over the same tuple: a former sharer
+must not stay registered under storage it has left).
 Identity-reuse stress after every history: brand-new 2- and 3-element vectors are built from fresh
 lists (kept alive so that freed identities are actually recycled) and each is written twice; a fresh
 vector shares storage with nothing, so any AliasError there is a spurious refusal.  The key names the
@@ -65,12 +76,71 @@ OPS = [
     ('del', 'del u; gc.collect()', ('u',), ('-u',), 'del'),
     ('del', 'del tup; gc.collect()', ('tup',), ('-tup',), 'del'),
 ]
-BY_SRC = {o[1]: o for o in OPS}
+# statements used only by the directed families D and T (never in the exhaustive alphabet)
+DERIVE_FROM_X = [
+    ('Vector.lshift-empty-list', 'y = x << []'),
+    ('Vector.rlshift-empty-list', 'y = [] << x'),
+    ('Vector.lshift-empty-vector', 'y = x << Vector([])'),
+    ('Vector.getitem-slice-full', 'y = x[:]'),
+    ('Vector.getitem-slice-from0', 'y = x[0:]'),
+    ('Vector.getitem-slice-to-n', 'y = x[:3]'),
+    ('Vector.getitem-slice-neg-n', 'y = x[-3:]'),
+    ('Vector.getitem-slice-over', 'y = x[0:100]'),
+    ('Vector.getitem-mask-all', 'y = x[[True, True, True]]'),
+    ('Vector.getitem-index-all', 'y = x[[0, 1, 2]]'),
+    ('Vector.copy', 'y = x.copy()'),
+    ('Vector.T', 'y = x.T'),
+    ('Vector.add-zero', 'y = x + 0'),
+    ('Vector.pos', 'y = +x'),
+    ('Vector.sort_by', 'y = x.sort_by()'),
+    ('Vector.cast-same', 'y = x.cast(int)'),
+    ('Vector.fillna', 'y = x.fillna(0)'),
+    ('Vector.dropna', 'y = x.dropna()'),
+]
+DERIVE_FROM_T = [
+    ('Table.column-slice-to-n', 'y = t.a[:3]'),
+    ('Table.column-slice-full', 'y = t.a[:]'),
+    ('Table.column-copy', 'y = t.a.copy()'),
+    ('Table.column-T', 'y = t.a.T'),
+    ('Table.column-lshift-empty', 'y = t.a << []'),
+    ('Table.getitem-rows-col', "y = t[0:3, 'a']"),
+]
+# ladder kinds for family T: kind -> (tuple literal, promoting value, plain value)
+# (the tuples are built at run time: a literal of constants would be owned by the compiled statement and never be freed,
+#  so `del tup` could not hand its identity to a later object)
+KINDS = {
+    'int': ('tuple([1, 2, 3])', '1.5', '9'),
+    'bool': ('tuple([True, False, True])', '2', 'False'),
+    'date': ('(date(2020,1,1), date(2020,1,2), date(2021,5,5))', 'datetime(2022,3,4,5,6)', 'date(2000,1,1)'),
+}
+EXTRA_OPS = [(n, src, ('x',), ('y',), 'make') for n, src in DERIVE_FROM_X] + \
+            [(n, src, ('t',), ('y',), 'make') for n, src in DERIVE_FROM_T] + [
+    ('Vector.shared-tuple', "tup = (1, 2, 3); x = Vector(tup, name='a'); z = Vector(tup, name='b')", (), ('tup', 'x', 'z'), 'make'),
+    ('Vector.setitem-promote', 'z[0] = 1.5', ('z',), (), 'write'),
+    # dropping the tuple WITHOUT a full collection: its identity goes straight back to the interpreter's tuple free list
+    # and the next 3-element storage gets it (a full gc.collect() empties the free lists, which makes reuse rare)
+    ('del', 'del tup', ('tup',), ('-tup',), 'del'),
+]
+for _k, (_tup, _p, _q) in KINDS.items():
+    EXTRA_OPS.append(('Vector.shared-tuple', f"tup = {_tup}; x = Vector(tup, name='a'); y = Vector(tup, name='b')", (), ('tup', 'x', 'y'), 'make'))
+    for _h in 'xyz':
+        EXTRA_OPS.append(('Vector.setitem-promote', f'{_h}[0] = {_p}', (_h,), (), 'write'))
+        EXTRA_OPS.append(('Vector.setitem-int', f'{_h}[0] = {_q}', (_h,), (), 'write'))
+BY_SRC = {o[1]: o for o in EXTRA_OPS}
+BY_SRC.update({o[1]: o for o in OPS})
 # which vector a write statement goes through (evaluated in the history's namespace, before the write)
 WRITE_TARGET = {
     'x[0] = 9': 'x', 'y[0] = 9': 'y', 'z[0] = 9': 'z', 'x[0:2] = [7, 8]': 'x', 'x[0] = 1.5': 'x', 'y[0] = 1.5': 'y',
     't.a[0] = 9': "t['a']", 't[0, 1] = 9': 't.cols()[1]', 't[0, 0] = 1.5': 't.cols()[0]', 'u.a[0] = 9': "u['a']",
 }
+
+
+
+
+def _write_target(src):
+    if src in WRITE_TARGET:
+        return WRITE_TARGET[src]
+    return src.split('[')[0]          # handle-level write `h[...] = ...`
 
 
 CORE_DROP = {"t = Vector([x, y])", "u = t << [7, 8]", "u = t['b', 'a']", "u = t.sort_by('a')", "t.b = [7, 8, 9]", "z = x[:]",
@@ -98,6 +168,61 @@ def _histories(n, ops, only_len=None):
     yield from rec(set(), 1, [])
 
 
+def _follow(prefix, live, srcs, n, only_len=None):
+    """prefix + every applicable history of 1..n statements drawn from srcs (every prefix is a case)."""
+    ops = [BY_SRC[s] for s in srcs]
+
+    def rec(live, k, h):
+        for name, src, needs, defs, kind in ops:
+            if any(x not in live for x in needs):
+                continue
+            h2 = h + [src]
+            if only_len is None or k == only_len:
+                yield h2
+            if k < n:
+                l2 = set(live)
+                for d in defs:
+                    if d.startswith('-'):
+                        l2.discard(d[1:])
+                    else:
+                        l2.add(d)
+                yield from rec(l2, k + 1, h2)
+    yield from rec(set(live), 1, list(prefix))
+
+
+DEL = {h: f'del {h}; gc.collect()' for h in ('x', 'y', 'z', 't', 'u', 'tup')}
+
+
+def _family_d(tier):
+    n = 2 if tier == 'quick' else 3
+    vec_follow = ['y[0] = 9', 'x[0] = 9', 'y[0] = 1.5', 'x[0] = 1.5', DEL['x'], DEL['y']]
+    tab_follow = ['y[0] = 9', 't.a[0] = 9', 't[0, 0] = 1.5', 'y[0] = 1.5', DEL['t'], DEL['y']]
+    fresh = "x = Vector([1, 2, 3], name='a')"
+    shared = "tup = (1, 2, 3); x = Vector(tup, name='a'); z = Vector(tup, name='b')"
+    table = "t = Table({'a': [1, 2, 3], 'b': [4, 5, 6]})"
+    for _, d in DERIVE_FROM_X:
+        yield from _follow([fresh, d], {'x', 'y'}, vec_follow, n)
+        yield from _follow([shared, d], {'x', 'y', 'z', 'tup'}, vec_follow + ['z[0] = 9', DEL['z']], n)
+    for _, d in DERIVE_FROM_T:
+        yield from _follow([table, d], {'t', 'y'}, tab_follow, n)
+
+
+def _family_t(tier):
+    for kind, (tup, p, q) in KINDS.items():
+        n = 4 if tier == 'quick' else 5
+        prefix = f"tup = {tup}; x = Vector(tup, name='a'); y = Vector(tup, name='b')"
+        narrow = [f'x[0] = {p}', DEL['y'], DEL['x'], 'z = Vector(tup)', f'z[0] = {q}', 'del tup']
+        follow = narrow + [f'y[0] = {q}', f'z[0] = {p}', DEL['tup']]
+        if tier != 'quick':
+            follow += [f'x[0] = {q}', DEL['z']]
+        yield [prefix]
+        yield from _follow([prefix], {'x', 'y', 'tup'}, follow, n)
+        # one statement deeper over the statements of the scenario `refused promotion; drop the partner; promotion;
+        # new vector over the tuple (or: drop the tuple); write`
+        if tier != 'quick' or kind != 'bool':
+            yield from _follow([prefix], {'x', 'y', 'tup'}, narrow, n + 1, only_len=n + 1)
+
+
 def cases(tier, seed):
     # every prefix of a history is itself a case, so the stress runs after every step of every history
     full_n, core_n = (3, 4) if tier == 'quick' else (4, 5)
@@ -105,6 +230,10 @@ def cases(tier, seed):
         yield {'hist': h}
     for h in _histories(core_n, CORE, only_len=core_n):
         yield {'hist': h}
+    for h in _family_d(tier):
+        yield {'hist': h, 'fam': 'D'}
+    for h in _family_t(tier):
+        yield {'hist': h, 'fam': 'T'}
 
 
 # --------------------------------------------------------------------------------------------
@@ -173,11 +302,11 @@ def _culprits(storage_id, me, env, origin, replaced):
     return sorted(set(names)) or ['unattributed']
 
 
-def _stress(env, origin, replaced, hist, fails, n):
+def _stress(env, origin, replaced, hist, fails, n, sizes=(2, 3)):
     """Brand-new vectors over fresh lists, all kept alive (so that freed identities are really handed out
     again), each written twice (the second write probes the identities handed out by the first)."""
     reported = set()
-    for size in (2, 3):
+    for size in sizes:
         hold = [Vector([1000 + i + j for j in range(size)]) for i in range(n)]
         for rnd in (1, 2):
             for w in hold:
@@ -205,6 +334,39 @@ def _note_replaced(env, st0, replaced, name):
             replaced.setdefault(n, {})[sid] = name
 
 
+class _Spec:
+    """SPEC sharing relation: which vector handles stand (by the statement) over one caller tuple."""
+
+    def __init__(self):
+        self.group = {}       # vector handle -> token of the caller tuple it still stands over (None: fresh)
+        self.born = {}        # handle -> sequence number of the statement that (re)bound it
+        self.tuptoken = None
+        self.clock = 0
+
+    def made(self, name, defs, env):
+        self.clock += 1
+        if 'tup' in defs:
+            # token = identity of the tuple (a literal of constants is owned by the compiled statement: re-running the
+            # statement binds the SAME object again; a run-time tuple stays alive as long as a member stands over it)
+            self.tuptoken = id(env['tup'])
+        for d in defs:
+            if d.startswith('-'):
+                self.group.pop(d[1:], None)
+                self.born.pop(d[1:], None)
+                if d == '-tup':
+                    self.tuptoken = None      # nobody can join any more; present members still share
+            elif d != 'tup':
+                self.born[d] = self.clock
+                if d in ('x', 'y', 'z'):
+                    self.group[d] = self.tuptoken if name.startswith('Vector.shared-tuple') else None
+
+    def sharers(self, handle, env):
+        tok = self.group.get(handle)
+        if handle is None or tok is None:
+            return []
+        return [h for h, t in self.group.items() if h != handle and t == tok and h in env]
+
+
 def _make_step(env, src, name, defs, origin, replaced, hist, fails):
     """Creation / derivation / del step.  Returns False when the rest of the history is undefined.
     (All temporaries live in this frame only: the monitor must not keep dropped objects alive.)"""
@@ -230,9 +392,12 @@ def _make_step(env, src, name, defs, origin, replaced, hist, fails):
     return ok
 
 
-def _write_step(env, src, name, origin, replaced, hist, fails):
+def _write_step(env, src, name, origin, replaced, hist, fails, spec):
+    tname = _write_target(src)
+    handle = tname if tname in ('x', 'y', 'z') else None        # None: a table column (fresh by the statement)
+    spec_sharers = spec.sharers(handle, env)
     try:
-        target = eval(_compiled(WRITE_TARGET[src], 'eval'), _G, env)
+        target = eval(_compiled(_write_target(src), 'eval'), _G, env)
     except Exception:
         return False
     if not isinstance(target, Vector) or isinstance(target, Table):
@@ -257,7 +422,20 @@ def _write_step(env, src, name, origin, replaced, hist, fails):
             fails.append(Fail(f'C15:fresh-vector:spurious-refusal:{who}',
                               f'{hist}: AliasError although no other live vector shares the storage of the written vector '
                               f'(a live object is still registered under that identity, left by: {who})', 'write succeeds', 'AliasError'))
+        elif shared and not spec_sharers:
+            # really shares, but with vectors that are fresh by the statement (copy / slice / operation result /
+            # table column ...): the youngest object involved was produced by the operation that made them share
+            owner = handle or tname.split('.')[0].split('[')[0]
+            involved = [owner] + [lab.split('.')[0] for lab in shared]
+            young = max(involved, key=lambda h: spec.born.get(h, 0))
+            culprit = origin.get(young, young) + ('.column' if isinstance(env.get(young), Table) else '')
+            fails.append(Fail(f'C15:{culprit}:result-shares-operand-storage:refused',
+                              f'{hist}: AliasError, the written vector really shares storage with {shared}, but by the statement it is '
+                              f'fresh (only vectors built over one caller tuple may share): a copy / slice / operation result / table '
+                              f'column must be writable while its operand is alive, and the operand too', 'write succeeds', 'AliasError'))
     elif exc is None:
+        if handle is not None:
+            spec.group[handle] = None         # a written vector has left the shared storage
         if shared:
             fails.append(Fail(f'C15:{name}:shared-write-not-refused',
                               f'{hist}: the written vector shares storage with {shared} but the write was accepted '
@@ -278,6 +456,7 @@ def evaluate(case):
         gc.freeze()
     fails = []
     env = {}
+    spec = _Spec()
     origin = {}               # handle -> operation that created the object
     replaced = {}             # handle -> {former storage identity: operation that replaced the storage}
     done = []
@@ -290,10 +469,14 @@ def evaluate(case):
         if kind != 'write':
             if not _make_step(env, src, name, defs, origin, replaced, hist, fails):
                 break
-        elif not _write_step(env, src, name, origin, replaced, hist, fails):
+            spec.made(name, defs, env)
+        elif not _write_step(env, src, name, origin, replaced, hist, fails, spec):
             break
     hist = '; '.join(done)
-    _stress(env, origin, replaced, hist, fails, 12)
+    if case.get('fam') == 'T':
+        _stress(env, origin, replaced, hist, fails, 6, (3, 2))     # the storage dropped in these histories has 3 elements
+    else:
+        _stress(env, origin, replaced, hist, fails, 6 if case.get('fam') else 12)
     return fails
 
 
@@ -312,9 +495,19 @@ if __name__ == '__main__':
               'sort, attribute assignment, plain / slice / promoting writes, writes through table columns and cells, del + '
               'gc.collect of every handle and of the shared tuple); monitor = true sharing relation among live vectors; after '
               'every history an identity-reuse stress on brand-new 2- and 3-element vectors (held alive, written twice). '
+              'Plus a SPEC sharing relation (only vectors over one caller tuple may share; derivations and table columns are '
+              'fresh): a refusal on a spec-fresh vector fails even if it really shares. Family D: 18 vector derivations that '
+              'could hand back the operand storage (<< with an empty operand both ways, whole-vector slices [:], [0:], [:n], [-n:], '
+              '[0:100], all-true mask, copy, T, +0, unary +, sort_by, cast, fillna, dropna) from a fresh vector and from one of two '
+              'sharers, 6 table-column derivations, each followed by every history of writes / promotions / drops of result and '
+              'operand. Family T: two vectors over one tuple (int, bool, date ladders) followed by every history of promoting / '
+              'plain writes, drops of sharers and of the tuple, and new vectors over the same tuple. '
               'distinct = distinct histories containing a write or a del',
          bound=lambda tier: {'max_steps_full_alphabet': 3 if tier == 'quick' else 4,
                              'max_steps_core_alphabet(23 statements)': 4 if tier == 'quick' else 5,
                              'vector_len': 3, 'handles': 'x,y,z,t,u,tup',
-                             'stress_vectors_per_size': '12, all held alive, each written twice'},
+                             'stress_vectors_per_size': '12 (families D, T: 6), all held alive, each written twice',
+                             'family_D_follow_steps': 2 if tier == 'quick' else 3,
+                             'family_T_follow_steps': '4 (9 statements) + 5 (6 scenario statements; int, date)' if tier == 'quick'
+                             else '5 (11 statements) + 6 (6 scenario statements)'},
          nontrivial=nontrivial)
